@@ -86,12 +86,14 @@ func (f *FBaseProcessor) Process(iprot, oprot *FProtocol) error {
 
 	logger().Warnf("frugal: client invoked unknown function %s on request with correlation id %s",
 		name, fctx.CorrelationID())
+	// The caller waits for an answer on its op id whether or not the arguments
+	// it sent can be skipped (a registered function answers undecodable
+	// arguments with PROTOCOL_ERROR and ignores ReadMessageEnd likewise).
 	if err := iprot.Skip(ctx, thrift.STRUCT); err != nil {
-		return err
+		logger().Warnf("frugal: could not skip the arguments of unknown function %s on request with correlation id %s: %s",
+			name, fctx.CorrelationID(), err)
 	}
-	if err := iprot.ReadMessageEnd(ctx); err != nil {
-		return err
-	}
+	iprot.ReadMessageEnd(ctx)
 	ex := thrift.NewTApplicationException(APPLICATION_EXCEPTION_UNKNOWN_METHOD, "Unknown function "+name)
 	f.writeMu.Lock()
 	defer f.writeMu.Unlock()
